@@ -11,12 +11,13 @@ TranslateError.  What is NOT translated but assumed, per solver (CONFIG):
     `gamma_primal is not None` -> False, `random` -> False, ...): the listed
     branch is taken;
   * input validation (`if ...: raise ...`) is skipped;
-  * for the solvers over LISTS of operators (adupdates, adupdates_simple,
-    kaczmarz, osmlem) the preamble (list/dict comprehensions creating duals,
-    tmp_rans, proxs, sensitivities) is not translated: its source text is
-    pinned by a hash (any edit -> TranslateError), and the inner `for` loops are
-    emitted as per-index programs over indexed names such as "duals[j]",
-    "L[j]", "tmp_rans[L[j].range]" plus the skeleton of the outer loop body.
+  * the solvers over LISTS of operators (adupdates, adupdates_simple,
+    kaczmarz, osmlem) are emitted twice: (old) per-index programs of the inner
+    `for` loops over indexed names such as "duals[j]" plus the skeleton of the
+    outer loop body (Gen/Solvers.v), and (new, translate_l) preamble AND main
+    loop in the list language of coq/C11/SyntaxL.v (Gen/SolversL.v): list /
+    dict comprehensions that create objects, operator-list aliases (proxs),
+    structured references RVar / RIdx / RKey.
 """
 import ast
 import hashlib
@@ -42,6 +43,10 @@ class Ctx(object):
         self.spaces = {}                            # local name -> canonical space expression
         self.sdefs = {}                             # scalar local -> defining expression (inlined)
         self.loop_scalars = set(cfg.get('loop_scalars', ()))   # scalars recomputed in every iteration (parameters)
+        self.perm = set()                           # range aliases that are random permutations
+        self.oplist_alias = {}                      # proxs -> 'g[#].convex_conj.proximal(...)' (from the preamble)
+        self.keysets = set()                        # unique_ranges
+        self.options = set(cfg.get('options', ()))  # non-numeric option names (callback_loop)
         self.version = {}                           # loop scalar -> number of updates so far in the loop body
         self.normdefs = {}                          # scalar local d -> vector name v  for  d = -v.norm() ** 2
         self.ranges = {}                            # rng -> 'range(length)'
@@ -124,9 +129,15 @@ def op_symbol(ctx, f):
         if f.id in ctx.ops:
             return f.id
         return None
+    if isinstance(f, ast.Subscript) and isinstance(f.value, ast.Name) and f.value.id in ctx.oplist_alias \
+            and is_idx(ctx, f.slice):
+        return ctx.oplist_alias[f.value.id].replace('[#]', '[%s]' % ctx.idx)
     if isinstance(f, ast.Subscript) and isinstance(f.value, ast.Name) and f.value.id in ctx.oplists \
             and is_idx(ctx, f.slice):
         return '%s[%s]' % (f.value.id, ctx.idx)
+    if isinstance(f, ast.Subscript) and isinstance(f.value, ast.Name) and f.value.id in ctx.oplists \
+            and isinstance(f.slice, ast.Constant) and isinstance(f.slice.value, int) and f.slice.value >= 0:
+        return '%s[%d]' % (f.value.id, f.slice.value)
     if isinstance(f, ast.Attribute):
         base = op_symbol(ctx, f.value)
         if base is None:
@@ -149,6 +160,10 @@ def space_expr(ctx, e):
     if isinstance(e, ast.Subscript) and isinstance(e.value, ast.Name) and e.value.id in ctx.splists \
             and is_idx(ctx, e.slice):
         return '%s[%s]' % (e.value.id, ctx.idx)
+    if isinstance(e, ast.Attribute) and e.attr == 'domain' and isinstance(e.value, ast.Subscript) \
+            and isinstance(e.value.value, ast.Name) and e.value.value.id in ctx.oplists \
+            and isinstance(e.value.slice, ast.Constant) and e.value.slice.value == 0:
+        return '%s[0].domain' % e.value.value.id
     if isinstance(e, ast.Attribute) and e.attr in ('domain', 'range'):
         b = op_symbol(ctx, e.value)
         if b is not None:
@@ -166,6 +181,9 @@ def vname(ctx, e):
     if isinstance(e, ast.Subscript) and isinstance(e.value, ast.Name):
         if e.value.id in ctx.vlists and is_idx(ctx, e.slice):
             return '%s[%s]' % (e.value.id, ctx.idx)
+        if e.value.id in ctx.vlists and isinstance(e.slice, ast.Constant) and isinstance(e.slice.value, int) \
+                and e.slice.value >= 0:
+            return '%s[%d]' % (e.value.id, e.slice.value)
         if e.value.id in ctx.dicts:
             sp = space_expr(ctx, e.slice)
             if sp is not None:
@@ -198,11 +216,19 @@ def vx(ctx, e, emit):
             return '(VName %s)' % cstr(vname(ctx, f.value))
         if isinstance(f, ast.Attribute) and f.attr == 'copy' and not e.args and vname(ctx, f.value) is not None:
             return '(VName %s)' % cstr(vname(ctx, f.value))       # the VALUE of x; Bind makes the new object
-        if isinstance(f, ast.Attribute) and f.attr == 'zero' and not e.args and not e.keywords:
+        if isinstance(f, ast.Attribute) and f.attr in ('zero', 'one') and not e.args and not e.keywords:
             sp = space_expr(ctx, f.value)
             if sp is None:
                 ctx.err(e, 'unknown space')
+            if f.attr == 'one':
+                return '(VApp "ones_like" (VZero %s))' % cstr(sp)
             return '(VZero %s)' % cstr(sp)
+        if ast.unparse(f) == 'np.maximum' and len(e.args) == 2 and not e.keywords and is_scalar(ctx, e.args[1]):
+            return '(VMaxc %s %s)' % (sx(ctx, e.args[1]), vx(ctx, e.args[0], emit))
+        # space.element(v): a new element with the value of v
+        if isinstance(f, ast.Attribute) and f.attr == 'element' and len(e.args) == 1 and not e.keywords \
+                and space_expr(ctx, f.value) is not None:
+            return vx(ctx, e.args[0], emit)
         if e.keywords:
             ctx.err(e, 'keyword argument in a value position')
         # op.derivative(p).adjoint(a)
@@ -294,13 +320,19 @@ def is_kwargs_pop(v):
             and len(v.args) == 2 and isinstance(v.args[0], ast.Constant) and isinstance(v.args[1], ast.Constant))
 
 
+def is_perm_range(ctx, it):
+    """np.random.permutation(range(...))"""
+    return (isinstance(it, ast.Call) and ast.unparse(it.func) == 'np.random.permutation' and len(it.args) == 1
+            and not it.keywords and is_index_range(ctx, it.args[0]) and not isinstance(it.args[0], ast.Name))
+
+
 def is_index_range(ctx, it):
     """range(length) | range(len(ops)) | range(n_ops) | rng (recorded alias)"""
     if isinstance(it, ast.Name):
         return it.id in ctx.ranges
     if isinstance(it, ast.Call) and isinstance(it.func, ast.Name) and it.func.id == 'range' and len(it.args) == 1:
         a = it.args[0]
-        if isinstance(a, ast.Name) and a.id in ('length', 'n_ops'):
+        if isinstance(a, ast.Name) and a.id in ('length', 'n_ops', 'm'):
             return True
         if isinstance(a, ast.Call) and isinstance(a.func, ast.Name) and a.func.id == 'len' and len(a.args) == 1 \
                 and isinstance(a.args[0], ast.Name) and a.args[0].id in ctx.oplists:
@@ -334,6 +366,13 @@ def stmt(ctx, s, out, depth):
         if test in ctx.flags:
             stmts(ctx, s.body if ctx.flags[test] else s.orelse, out, depth)
             return
+        # if k == niter - 1: ...; return      (last iteration of the main loop)
+        if depth == 1 and not s.orelse and ctx.loopvar is not None and test == '%s == niter - 1' % ctx.loopvar \
+                and s.body and isinstance(s.body[-1], ast.Return) and s.body[-1].value is None:
+            prog = []
+            stmts(ctx, s.body[:-1], prog, 1)
+            emit('(OIfLast ' + ' ;; '.join(prog) + ')')
+            return
         # if v is None: v = e  [elif ...: raise]   for an optional vector parameter
         if (isinstance(s.test, ast.Compare) and isinstance(s.test.left, ast.Name) and s.test.left.id in ctx.optional
                 and len(s.test.ops) == 1 and isinstance(s.test.ops[0], ast.Is)
@@ -351,11 +390,11 @@ def stmt(ctx, s, out, depth):
             return
         ctx.err(s, 'if-test is neither input validation nor a configured flag')
     if isinstance(s, ast.For):
-        if s.orelse or not isinstance(s.target, ast.Name):
+        if s.orelse:
             ctx.err(s, 'loop header')
         it = s.iter
         if depth == 0:
-            if ctx.body is not None:
+            if ctx.body is not None or not isinstance(s.target, ast.Name):
                 ctx.err(s, 'second main loop')
             if not (isinstance(it, ast.Call) and isinstance(it.func, ast.Name) and it.func.id == 'range'
                     and len(it.args) == 1 and isinstance(it.args[0], ast.Name)
@@ -365,13 +404,33 @@ def stmt(ctx, s, out, depth):
             ctx.body = []
             stmts(ctx, s.body, ctx.body, 1)
             return
-        if depth == 1 and is_index_range(ctx, it):
+        # for Li, vi in zip(L[1:], v[1:]): body   ->  loop over idx from 1 with Li = L[idx], vi = v[idx]
+        if depth == 1 and isinstance(it, ast.Call) and isinstance(it.func, ast.Name) and it.func.id == 'zip' \
+                and isinstance(s.target, ast.Tuple) and len(s.target.elts) == len(it.args) \
+                and all(isinstance(t, ast.Name) for t in s.target.elts) \
+                and all(isinstance(a, ast.Subscript) and isinstance(a.value, ast.Name)
+                        and a.value.id in (ctx.oplists | ctx.vlists) and isinstance(a.slice, ast.Slice)
+                        and isinstance(a.slice.lower, ast.Constant) and a.slice.upper is None and a.slice.step is None
+                        for a in it.args) and len({a.slice.lower.value for a in it.args}) == 1:
+            start = it.args[0].slice.lower.value
+            idx = 'i%d' % (len(ctx.inner) + 1)
+            mp = {t.id: '%s[%s]' % (a.value.id, idx) for t, a in zip(s.target.elts, it.args)}
+            body = [_Subst(mp).visit(ast.parse(ast.unparse(b)).body[0]) for b in s.body]
+            ctx.idx = idx
+            prog = []
+            stmts(ctx, body, prog, 2)
+            ctx.inner.append((idx, prog))
+            ctx.idx = None
+            emit('(OForFrom%d %s %s_inner%d)' % (start, cstr(idx), ctx.name, len(ctx.inner)))
+            return
+        if depth == 1 and isinstance(s.target, ast.Name) and is_index_range(ctx, it):
             ctx.idx = s.target.id
             prog = []
             stmts(ctx, s.body, prog, 2)
             ctx.inner.append((ctx.idx, prog))
             ctx.idx = None
-            emit('(OFor %s %s_inner%d)' % (cstr(s.target.id), ctx.name, len(ctx.inner)))
+            kind = 'OForOrd' if isinstance(it, ast.Name) and it.id in ctx.perm else 'OFor'
+            emit('(%s %s %s_inner%d)' % (kind, cstr(s.target.id), ctx.name, len(ctx.inner)))
             return
         ctx.err(s, 'nested loop')
     if isinstance(s, ast.AugAssign) and in_loop and isinstance(s.target, ast.Name) \
@@ -410,9 +469,14 @@ def stmt(ctx, s, out, depth):
         if names is None or not all(isinstance(n, ast.Name) for n in names):
             ctx.err(s, 'assignment target')
         ids = [n.id for n in names]
-        # index range alias:  rng = range(length)
+        # index range alias:  rng = range(length)   |   rng = np.random.permutation(range(length))
         if len(ids) == 1 and in_loop and is_index_range(ctx, pick(ctx, v)) and not isinstance(pick(ctx, v), ast.Name):
             ctx.ranges[ids[0]] = ast.unparse(pick(ctx, v))
+            ctx.perm.discard(ids[0])
+            return
+        if len(ids) == 1 and in_loop and is_perm_range(ctx, pick(ctx, v)):
+            ctx.ranges[ids[0]] = ast.unparse(pick(ctx, v))
+            ctx.perm.add(ids[0])
             return
         # scalar preparation
         if all(i in ctx.scalars for i in ids):
@@ -509,6 +573,9 @@ def stmt(ctx, s, out, depth):
             tgt = vname(ctx, f.value)
             if f.attr == 'lincomb':
                 emit(write_lincomb(ctx, c, emit))
+                return
+            if f.attr == 'set_zero' and not c.args and not c.keywords:
+                emit('(Write %s (VZero %s))' % (cstr(tgt), cstr(tgt + '.space')))
                 return
             if f.attr == 'assign' and len(c.args) == 1 and not c.keywords:
                 rhs = vx(ctx, c.args[0], emit)
@@ -654,10 +721,8 @@ def translate_solver(name, cfg, repo):
     fn = find_fn(repo, cfg, cfg.get('fn', name))
     ctx = Ctx(name, cfg)
     if 'pre_hash' in cfg:
-        got = pre_digest(fn)
-        if got != cfg['pre_hash']:
-            raise C.TranslateError('%s: the (untranslated) preamble changed: digest %s, pinned %s -- review it and '
-                                   'update CONFIG' % (name, got, cfg['pre_hash']))
+        # list solvers: the preamble is translated by translate_list_solver (Gen/SolversL.v); here only the
+        # per-index programs of the inner loops are emitted (older theorems are stated about them)
         loops = [s for s in fn.body if isinstance(s, ast.For)]
         if len(loops) != 1 or fn.body[-1] is not loops[0]:
             raise C.TranslateError('%s: expected exactly one main loop as the last statement' % name)
@@ -710,3 +775,269 @@ def translate(repo=None):
 
 if __name__ == '__main__':
     print(translate())
+
+
+# ====================================================================== list solvers, full translation
+# Preamble AND main loop of the solvers over lists of operators in the language of coq/C11/SyntaxL.v
+# (-> coq/Gen/SolversL.v).  The statement translator above is reused; its output is rewritten into the
+# L dialect (structured references instead of name strings).
+import re
+
+IDX = 'j'       # the index variable of comprehensions
+
+
+class _Subst(ast.NodeTransformer):
+    def __init__(self, mapping):
+        self.mapping = mapping
+
+    def visit_Name(self, node):
+        if node.id in self.mapping:
+            return ast.parse(self.mapping[node.id], mode='eval').body
+        return node
+
+
+def _ref(ctx, name):
+    """name string of the V dialect -> vref term"""
+    m = re.match(r'^(\w+)\[(\d+)\]$', name)
+    if m:
+        return '(RAt %s %s)' % (cstr(m.group(1)), m.group(2))
+    m = re.match(r'^(\w+)\[(\w+)\]$', name)
+    if m:
+        return '(RIdx %s)' % cstr(m.group(1))
+    m = re.match(r'^(\w+)\[(\w+)\[(\w+)\]\.range\]$', name)
+    if m:
+        return '(RKey %s %s)' % (cstr(m.group(1)), cstr(m.group(2)))
+    if re.match(r'^\w+$', name):
+        return '(RVar %s)' % cstr(name)
+    raise C.TranslateError('%s: name %r has no structured form' % (ctx.name, name))
+
+
+def to_L(ctx, t):
+    """rewrite one statement of the V dialect into the L dialect"""
+    t = re.sub(r'\(VName "([^"]*)"\)', lambda m: '(LName %s)' % _ref(ctx, m.group(1)), t)
+    for k in ('VApp2', 'VApp', 'VAdd', 'VSub', 'VMul', 'VDiv', 'VMaxc', 'VScal', 'VLin', 'VZero', 'VJunk'):
+        t = t.replace('(%s ' % k, '(L%s ' % k[1:])
+    m = re.match(r'^\(Write "([^"]*)" (.*)\)$', t, re.S)
+    if m:
+        return '(LWrite %s %s)' % (_ref(ctx, m.group(1)), m.group(2))
+    m = re.match(r'^\(Callback "([^"]*)"\)$', t)
+    if m:
+        return '(LCallback %s)' % _ref(ctx, m.group(1))
+    m = re.match(r'^\(Alias "([^"]*)" "([^"]*)"\)$', t)
+    if m:
+        if '[' in m.group(1):        # l[idx] = other : rebinding a list slot
+            return '(LSetSlot %s (LName %s))' % (cstr(m.group(1).split('[')[0]), _ref(ctx, m.group(2)))
+        return '(LAlias %s %s)' % (cstr(m.group(1)), _ref(ctx, m.group(2)))
+    m = re.match(r'^\(Bind "([^"]*)" (.*)\)$', t, re.S)
+    if m:
+        if '[' in m.group(1):
+            return '(LSetSlot %s %s)' % (cstr(m.group(1).split('[')[0]), m.group(2))
+        return '(LBind %s %s)' % (cstr(m.group(1)), m.group(2))
+    raise C.TranslateError('%s: statement outside the list dialect: %s' % (ctx.name, t[:100]))
+
+
+def _comp_mapping(ctx, gens, node):
+    """loop variables of a comprehension -> indexed expressions (strings)"""
+    if len(gens) != 1 or gens[0].ifs or gens[0].is_async:
+        ctx.err(node, 'comprehension shape')
+    g = gens[0]
+    it, tg = g.iter, g.target
+    lists = ctx.oplists | ctx.vlists | ctx.slists | ctx.splists
+    if isinstance(it, ast.Name) and it.id in lists | ctx.keysets and isinstance(tg, ast.Name):
+        return {tg.id: '%s[%s]' % (it.id, IDX)} if it.id in lists else {tg.id: '#key'}
+    if isinstance(it, ast.Call) and isinstance(it.func, ast.Name) and it.func.id == 'zip' \
+            and isinstance(tg, ast.Tuple) and len(tg.elts) == len(it.args) \
+            and all(isinstance(a, ast.Name) and a.id in lists for a in it.args) \
+            and all(isinstance(t, ast.Name) for t in tg.elts):
+        return {t.id: '%s[%s]' % (a.id, IDX) for t, a in zip(tg.elts, it.args)}
+    if isinstance(tg, ast.Name) and is_index_range(ctx, it) and not isinstance(it, ast.Name):
+        return {tg.id: IDX}
+    ctx.err(node, 'comprehension generator')
+
+
+def pre_stmt(ctx, s, out):
+    """one preamble statement of a list solver"""
+    if isinstance(s, ast.Expr) and isinstance(s.value, ast.Constant) and isinstance(s.value.value, str):
+        return
+    if isinstance(s, ast.If):
+        test = ast.unparse(s.test)
+        if test in ctx.flags:
+            for t in (s.body if ctx.flags[test] else s.orelse):
+                pre_stmt(ctx, t, out)
+            return
+        if is_validation_if(s):
+            return
+        ctx.err(s, 'preamble if-test is neither input validation nor a configured flag')
+    if isinstance(s, ast.Assign) and len(s.targets) == 1:
+        t, v = s.targets[0], s.value
+        tn = t.id if isinstance(t, ast.Name) else None
+        # n = len(ops)
+        if tn in ('length', 'n_ops', 'm') and isinstance(v, ast.Call) and ast.unparse(v.func) == 'len' \
+                and len(v.args) == 1 and isinstance(v.args[0], ast.Name) and v.args[0].id in ctx.oplists:
+            return
+        # option normalisation: callback_loop, callback_loop_in = str(callback_loop).lower(), callback_loop
+        if isinstance(t, ast.Tuple) and all(isinstance(e, ast.Name) and e.id in ctx.options for e in t.elts):
+            return
+        # omega = normalized_scalar_param_list(omega, len(ops), param_conv=float)
+        if tn in ctx.slists and isinstance(v, ast.Call) and ast.unparse(v.func) == 'normalized_scalar_param_list' \
+                and isinstance(v.args[0], ast.Name) and v.args[0].id == tn:
+            return
+        # tau, sigma = douglas_rachford_pd_stepsize(L, tau, sigma)
+        if isinstance(t, ast.Tuple) and all(isinstance(e, ast.Name) and (e.id in ctx.scalars or e.id in ctx.slists)
+                                            for e in t.elts) \
+                and isinstance(v, ast.Call) and ast.unparse(v.func) == 'douglas_rachford_pd_stepsize':
+            return
+        # rans = {Li.range for Li in L}
+        if tn is not None and isinstance(v, ast.SetComp):
+            mp = _comp_mapping(ctx, v.generators, s)
+            elt = _Subst(mp).visit(ast.parse(ast.unparse(v.elt), mode='eval').body)
+            ctx.idx = IDX
+            try:
+                if space_expr(ctx, elt) is None:
+                    ctx.err(s, 'set comprehension of non-spaces')
+            finally:
+                ctx.idx = None
+            ctx.keysets.add(tn)
+            return
+        # unique_ranges = set(ranges)
+        if tn is not None and isinstance(v, ast.Call) and ast.unparse(v.func) == 'set' and len(v.args) == 1 \
+                and isinstance(v.args[0], ast.Name) and v.args[0].id in ctx.splists:
+            ctx.keysets.add(tn)
+            return
+        if tn is not None and isinstance(v, ast.ListComp):
+            mp = _comp_mapping(ctx, v.generators, s)
+            elt = _Subst(mp).visit(ast.parse(ast.unparse(v.elt), mode='eval').body)
+            ctx.idx = IDX
+            try:
+                # ranges = [opi.range for opi in L]
+                sp = space_expr(ctx, elt)
+                if sp is not None:
+                    ctx.splists.add(tn)
+                    return
+                sym = op_symbol(ctx, elt)
+                if sym is not None:                 # proxs = [func.convex_conj.proximal(...) for ...]
+                    ctx.oplist_alias[tn] = sym.replace('[%s]' % IDX, '[#]')
+                    return
+                ref = vname(ctx, elt)
+                if ref is not None:                 # a list of references to existing objects
+                    ctx.vlists.add(tn)
+                    out.append('(PListRef %s %s)' % (cstr(tn), _ref(ctx, ref)))
+                    return
+                if isinstance(elt, ast.Call) and isinstance(elt.func, ast.Attribute) and elt.func.attr == 'element' \
+                        and not elt.args and not elt.keywords and space_expr(ctx, elt.func.value) is not None:
+                    e = '(LJunk %s)' % cstr(tn)
+                else:
+                    pend = []
+                    e = to_L_expr(ctx, vx(ctx, elt, pend.append))
+                    if pend:
+                        ctx.err(s, 'side effect inside a comprehension')
+                ctx.vlists.add(tn)
+                out.append('(PList %s %s)' % (cstr(tn), e))
+                return
+            finally:
+                ctx.idx = None
+        if tn is not None and isinstance(v, ast.DictComp):
+            mp = _comp_mapping(ctx, v.generators, s)
+            if not (isinstance(v.key, ast.Name) and mp.get(v.key.id) == '#key' and isinstance(v.value, ast.Call)
+                    and isinstance(v.value.func, ast.Attribute) and v.value.func.attr in ('element', 'zero')
+                    and isinstance(v.value.func.value, ast.Name) and v.value.func.value.id == v.key.id
+                    and not v.value.args and not v.value.keywords):
+                ctx.err(s, 'dict comprehension shape')
+            ctx.dicts.add(tn)
+            if v.value.func.attr == 'zero':
+                out.append('(PDict %s (LZero %s))' % (cstr(tn), cstr(tn + '[key]')))
+            else:
+                out.append('(PDict %s (LJunk %s))' % (cstr(tn), cstr(tn)))
+            return
+    # everything else: the plain statement translator (validation, scalars, spaces, operator aliases, Bind ...)
+    tmp = []
+    stmt(ctx, s, tmp, 0)
+    for t in tmp:
+        out.append('(PStmt %s)' % to_L(ctx, t))
+
+
+def to_L_expr(ctx, t):
+    t = re.sub(r'\(VName "([^"]*)"\)', lambda m: '(LName %s)' % _ref(ctx, m.group(1)), t)
+    for k in ('VApp2', 'VApp', 'VAdd', 'VSub', 'VMul', 'VDiv', 'VMaxc', 'VScal', 'VLin', 'VZero', 'VJunk'):
+        t = t.replace('(%s ' % k, '(L%s ' % k[1:])
+    return t
+
+
+LCONFIG = {
+    'adupdates': dict(CONFIG['adupdates'], vlists=[], oplists=['L', 'g'], dicts=[], splists=[],
+                      options=['callback_loop', 'callback_loop_in']),
+    'adupdates_simple': dict(CONFIG['adupdates_simple'], vlists=[], oplists=['L', 'g'], splists=[]),
+    'kaczmarz': dict(CONFIG['kaczmarz'], vectors=['x'], vlists=['rhs'], dicts=[], splists=[], options=[]),
+    'osmlem': dict(CONFIG['osmlem'], vectors=['x'], vlists=['data'], scalars=['niter', 'eps'],
+                   optional=['sensitivities'],
+                   flags=dict(CONFIG['osmlem']['flags'], **{'sensitivities is None': True})),
+}
+
+
+DR = dict(file=N + 'douglas_rachford.py', scalars=['tau', 'niter', 'lam', 'lam_in', 'lam_k'], vectors=['x'],
+          operators=['f'], oplists=['L', 'g', 'l'], slists=['sigma'], vlists=[], dicts=[], splists=[],
+          optional=['l'], options=[],
+          flags={'callback is not None': True, 'len(L) > 0': True, 'l is not None': False,
+                 'l is not None and len(l) != m': False})
+LCONFIG['douglas_rachford_pd'] = DR
+LCONFIG['douglas_rachford_pd_noops'] = dict(DR, fn='douglas_rachford_pd', flags=dict(DR['flags'], **{'len(L) > 0': False}))
+LCONFIG['douglas_rachford_pd_l'] = dict(DR, fn='douglas_rachford_pd',
+                                        flags=dict(DR['flags'], **{'l is not None': True}))
+LCONFIG['kaczmarz_random'] = dict(LCONFIG['kaczmarz'], fn='kaczmarz',
+                                  flags=dict(LCONFIG['kaczmarz']['flags'], random=True))
+LCONFIG['adupdates_random'] = dict(LCONFIG['adupdates'], fn='adupdates',
+                                   flags=dict(LCONFIG['adupdates']['flags'], random=True))
+LCONFIG['adupdates_simple_random'] = dict(LCONFIG['adupdates_simple'], fn='adupdates_simple',
+                                          flags=dict(LCONFIG['adupdates_simple']['flags'], random=True))
+
+
+def translate_list_solver(name, cfg, repo):
+    cfg = dict(cfg)
+    cfg.pop('pre_hash', None)
+    fn = find_fn(repo, cfg, cfg.get('fn', name))
+    ctx = Ctx(name + '_l', cfg)
+    pre = []
+    loops = [s for s in fn.body if isinstance(s, ast.For)]
+    if len(loops) != 1 or fn.body[-1] is not loops[0]:
+        raise C.TranslateError('%s: expected exactly one main loop as the last statement' % name)
+    for s in fn.body[:-1]:
+        pre_stmt(ctx, s, pre)
+    stmt(ctx, loops[0], [], 0)
+    items = []
+    k = 0
+    for t in ctx.body:
+        if t.startswith('(OIfLast '):
+            progs = [u for u in t[len('(OIfLast '):-1].split(' ;; ') if u]
+            items.append('(IIfLast [' + '; '.join(to_L(ctx, u) for u in progs) + '])')
+        elif t.startswith('(OFor'):
+            idx, prog = ctx.inner[k]
+            k += 1
+            head = 'IForOrd' if t.startswith('(OForOrd') else \
+                ('IForFrom %s' % t[len('(OForFrom'):].split(' ')[0] if t.startswith('(OForFrom') else 'IFor')
+            items.append('(%s [\n' % head
+                         + ';\n'.join('      ' + to_L(ctx, u) for u in prog) + '])')
+        else:
+            items.append('(IStmt %s)' % to_L(ctx, t))
+    return ctx, pre, items
+
+
+def translate_l(repo=None):
+    repo = repo or C.REPO
+    out = ['(* GENERATED by translate/solvers.py (list solvers, preamble included) -- do not edit. *)',
+           'From Coq Require Import ZArith QArith String List.',
+           'From Verif Require Import C11.Syntax C11.SyntaxL.',
+           'Import ListNotations.',
+           'Local Open Scope string_scope.', '']
+    for name, cfg in LCONFIG.items():
+        ctx, pre, items = translate_list_solver(name, cfg, repo)
+        out.append('(* %s  (%s)' % (name, cfg['file']))
+        out.append('   operator symbols: %s' % ', '.join(sorted(ctx.symbols)))
+        out.append('   assumed: %s *)' % ', '.join('%s=%s' % kv for kv in sorted(cfg.get('flags', {}).items())))
+        out.append('Definition %s_lpre : list pstmt := [' % name)
+        out.append(';\n'.join('  ' + t for t in pre))
+        out.append('].')
+        out.append('Definition %s_lbody : list litem := [' % name)
+        out.append(';\n'.join('  ' + t for t in items))
+        out.append('].')
+        out.append('')
+    return '\n'.join(out) + '\n'
